@@ -41,7 +41,8 @@ SameOuts(x, y) ==
   /\ Len(x) = Len(y)
   /\ \A i \in 1..Len(x) : DOMAIN x[i] = DOMAIN y[i] /\ \A a \in DOMAIN x[i] : x[i][a] = y[i][a]
 
-DummyCfg == [norm |-> "noop", dmap |-> FALSE, nf |-> 0, jbox |-> "none", junkName |-> "Junk", msgs |-> <<>>]
+DummyCfg == [norm |-> "noop", dmap |-> FALSE, nf |-> 0, jbox |-> "none", junkName |-> "Junk", watch |-> FALSE,
+             msgs |-> <<>>]
 
 TInit ==
   /\ InitWith(DummyCfg)
@@ -51,20 +52,20 @@ TInit ==
 TReset ==
   /\ IsEv("Cfg")
   /\ cfg' = [norm |-> Ev.norm, dmap |-> Ev.dmap, nf |-> Ev.nf, jbox |-> Ev.jbox,
-             junkName |-> Ev.junkName, msgs |-> MsgsOf(Ev)]
+             junkName |-> Ev.junkName, watch |-> Ev.watch, msgs |-> MsgsOf(Ev)]
   /\ phase' = "idle" /\ mi' = 0 /\ idx' = 0 /\ ks' = <<>>
   /\ store' = {} /\ pend' = {} /\ exists' = StartAccts
-  /\ blobs' = FALSE /\ leak' = FALSE /\ envDone' = {} /\ used' = {}
+  /\ blobs' = FALSE /\ leak' = FALSE /\ told' = 0 /\ ann' = 0 /\ envDone' = {} /\ used' = {}
   /\ obs' = ObsInit
   /\ hist' = <<>>
   /\ l' = l + 1 /\ drift' = FALSE /\ driftAt' = 0 /\ tno' = Ev.t
 
-C_Start   == /\ IsEv("Start") /\ Ev.msg = mi + 1 /\ SnapOf(Ev) = store /\ Start
+C_Start   == /\ IsEv("Start") /\ Ev.msg = mi + 1 /\ SnapOf(Ev) = store /\ Ev.told = told /\ Start
 C_AddRcpt == /\ IsEv("AddRcpt") /\ phase = "open" /\ idx <= Len(CurList)
-             /\ CurList[idx] = Ev.ad /\ RcptRes(Ev.ad) = Ev.res /\ SnapOf(Ev) = store
+             /\ CurList[idx] = Ev.ad /\ RcptRes(Ev.ad) = Ev.res /\ SnapOf(Ev) = store /\ Ev.told = told
              /\ AddRcpt
-C_Delete  == /\ IsEv("Delete") /\ Delete(Ev.acct) /\ SnapOf(Ev) = store'
-C_Login   == /\ IsEv("Login") /\ Ev.acct = "u" /\ Ev.res = "ok" /\ SnapOf(Ev) = store /\ Login
+C_Delete  == /\ IsEv("Delete") /\ Delete(Ev.acct) /\ SnapOf(Ev) = store' /\ Ev.told = told
+C_Login   == /\ IsEv("Login") /\ Ev.acct = "u" /\ Ev.res = "ok" /\ SnapOf(Ev) = store /\ Ev.told = told /\ Login
 C_Body    == /\ IsEv("Body") /\ phase = "open" /\ idx > Len(CurList) /\ ks # <<>>
              /\ Ev.fault \in 0..Len(ks)
              /\ \E outs \in OutsSet(KAccts, IF CurMsg.quar THEN 0 ELSE cfg.nf) :
@@ -73,8 +74,9 @@ C_Body    == /\ IsEv("Body") /\ phase = "open" /\ idx > Len(CurList) /\ ks # <<>
                   /\ CallsOf(Ev) = Calls(CurMsg.quar, outs)
                   /\ SnapOf(Ev) = store
                   /\ Body(outs, Ev.fault)
-C_Commit  == /\ IsEv("Commit") /\ Ev.res = "ok" /\ Commit /\ SnapOf(Ev) = store'
-C_Abort   == /\ IsEv("Abort") /\ SnapOf(Ev) = store /\ Abort
+                  /\ Ev.told = told'
+C_Commit  == /\ IsEv("Commit") /\ Ev.res = "ok" /\ Commit /\ SnapOf(Ev) = store' /\ Ev.told = told'
+C_Abort   == /\ IsEv("Abort") /\ SnapOf(Ev) = store /\ Ev.told = told /\ Abort
 C_End     == /\ IsEv("End") /\ (Ev.orphans > 0) = leak /\ End
 
 Conform == C_Start \/ C_AddRcpt \/ C_Delete \/ C_Login \/ C_Body \/ C_Commit \/ C_Abort \/ C_End
@@ -86,7 +88,7 @@ C_Step ==
   /\ IF Ev.e = "End" THEN Publish(FALSE, 0, obs', used') ELSE TRUE
 
 (* the observation fold, independent of the design state *)
-ObsApply(o, e) ==
+ObsApply0(o, e) ==
   CASE e.e = "Start"   -> ObsStart(o, MsgId(e.msg), e.quar, SnapOf(e))
     [] e.e = "AddRcpt" -> ObsAddRcpt(o, cfg, e.ad, e.res, SnapOf(e))
     [] e.e = "Delete"  -> ObsDelete(o, e.acct, SnapOf(e))
@@ -96,6 +98,7 @@ ObsApply(o, e) ==
     [] e.e = "Abort"   -> ObsAbort(o, SnapOf(e))
     [] e.e = "End"     -> ObsEnd(o, e.orphans)
     [] OTHER -> o
+ObsApply(o, e) == IF e.e = "End" THEN ObsApply0(o, e) ELSE ObsTold(ObsApply0(o, e), e.told, SnapOf(e))
 
 M_Step ==
   /\ l <= Len(Trace) /\ Ev.e # "Cfg"
@@ -104,7 +107,7 @@ M_Step ==
   /\ driftAt' = IF drift THEN driftAt ELSE Ev.seq
   /\ obs' = ObsApply(obs, Ev)
   /\ l' = l + 1
-  /\ UNCHANGED <<cfg, phase, mi, idx, ks, store, pend, exists, blobs, leak, envDone, used, hist, tno>>
+  /\ UNCHANGED <<cfg, phase, mi, idx, ks, store, pend, exists, blobs, leak, told, ann, envDone, used, hist, tno>>
   /\ IF Ev.e = "End" THEN Publish(TRUE, driftAt', obs', used) ELSE TRUE
 
 TNext == TReset \/ C_Step \/ M_Step
